@@ -75,7 +75,7 @@ impl Engine for TourEngine {
         "one case = one small network (G-INST small-grid family: <= 9 trips + <= 2 slots on a 6-tick time line, shunting in {0, 1 tick}, dead-heads in {0, 1, 3 ticks}); for it EVERY chain of the reachability relation (capped) is turned into tours (real with a real depot pair and with the overflow pair, and the dummy tour) and into paths (with / without leading start depot and trailing end depot); every (tour, path) pair is inserted and every (tour, i<=j) segment is extracted and removed, each compared with R-INSERT / R-REMOVE and re-validated by cache recomputation; evaluations counts networks, counters.pairs counts the (tour, path)/(tour, segment) pairs; distinct = tape digest; non-trivial = the network has an (inserted path, tour neighbour) tie with zero turnaround or a non-transitive triple around an insertion point".to_string()
     }
     fn assumptions(&self) -> Vec<String> {
-        vec!["segments contain >= 1 activity; paths are chains of the reachability relation".into(), "dummy tours whose consecutive trips are not connectable (a slot between them was dropped) are outside 'valid tours' and skipped (counted)".into(), "chains are capped per network (counted in counters.chains_capped)".into()]
+        vec!["segments contain >= 1 activity; paths are chains of the reachability relation".into(), "dummy tours whose consecutive trips are not connectable (a slot between them was dropped) are outside 'valid tours' for insertion and removal (counted); sub-path extraction is still checked on them".into(), "chains are capped per network (counted in counters.chains_capped)".into()]
     }
     fn max_shrink_iters(&self) -> u32 {
         600
@@ -158,7 +158,18 @@ impl TourEngine {
                                 if nodes.windows(2).all(|w| reach(&cx, w[0], w[1])) {
                                     tours.push((d, nodes, true));
                                 } else {
-                                    *o.counters.entry("non_path_dummy_tours_skipped".into()).or_insert(0) += 1;
+                                    // only "extracting a sub-path of an existing segment always
+                                    // succeeds" is checked on them
+                                    *o.counters.entry("non_path_dummy_tours_sub_path_only".into()).or_insert(0) += 1;
+                                    for i in 0..nodes.len() {
+                                        for j in i..nodes.len() {
+                                            pairs += 1;
+                                            match sut::catch(|| d.sub_path(Segment::new(nodes[i], nodes[j])).map(|p| p.iter().collect::<Vec<_>>())) {
+                                                Ok(Ok(got)) if got == nodes[i..=j] => {}
+                                                other => fs.push(Finding { prop: "C12", msg: format!("sub_path of an existing segment of the dummy tour {:?} (positions {}..={}) gives {:?}", names(&cx, &nodes), i, j, other.map(|r| r.map(|g| names(&cx, &g))).map_err(|p| p.msg)) }),
+                                            }
+                                        }
+                                    }
                                 }
                             }
                         }
